@@ -72,9 +72,13 @@ def _symbolize_as_cz_pow(
 ) -> tuple[Gate, dict[str, Real]]:
     """Symbolizes a CZPowGate to a parameterized CZPowGate."""
 
-    if not isinstance(two_qubit_gate, CZPowGate) or not isinstance(two_qubit_gate.exponent, Real):
-        raise ValueError("Can't symbolize non-CZPowGate as CZ**symbol.")
-    return (CZ ** symbols[0], {str(symbols[0]): two_qubit_gate.exponent})
+    if isinstance(two_qubit_gate, CZPowGate) and isinstance(two_qubit_gate.exponent, Real):
+        return (CZ ** symbols[0], {str(symbols[0]): two_qubit_gate.exponent})
+    # Other gates that the target accepts are equal to CZ**0.5 or CZ**-0.5 up to global phase.
+    for exponent in (0.5, -0.5):
+        if protocols.equal_up_to_global_phase(two_qubit_gate, CZ**exponent):
+            return (CZ ** symbols[0], {str(symbols[0]): exponent})
+    raise ValueError("Can't symbolize non-CZPowGate as CZ**symbol.")
 
 
 SqrtCZGaugeTransformer = GaugeTransformer(
